@@ -293,7 +293,7 @@ def run_ensemble_maps(rng, obs):
     if spec[0] == 'plateau' and rng.random() < 0.7:      # a wide box around the plateau so that several members reach the bottom
         box = {'lo': [round(c - 6.0, 2) for c in spec[1]], 'hi': [round(c + 6.0, 2) for c in spec[1]], 'shape': 'finite'}
     npts = rng.choice([2, 3, 4, 6])
-    maxiter = rng.choice([3, 8, 20])
+    maxiter = rng.choice([3, 8, 20, 60, 200])          # (long enough, sometimes, for members to stop on their own at different times while others go on)
     obs.desc = {'ensemble': which, 'nested': nested, 'dim': dim, 'cost': spec, 'box': box, 'npts': npts, 'maxiter': maxiter}
     mons = rng.choice(['none', 'none', 'both', 'both', 'evalmon', 'stepmon'])   # copy-semantics maps splice member monitors back: which monitors exist matters
     restart = rng.random() < 0.4                                                # a second Solve with raised limits on the same ensemble
@@ -304,8 +304,14 @@ def run_ensemble_maps(rng, obs):
         j = rng.randrange(dim); box = dict(box, lo=list(box['lo']), hi=list(box['hi']))
         c = spec[1][j] if len(spec) > 1 and isinstance(spec[1], list) and len(spec[1]) > j and isinstance(spec[1][j], (int, float)) else 1.0
         box['hi'][j] = c - rng.choice([0.0, 0.5]); box['lo'][j] = box['hi'][j] - 4.0
+    # the members' stop rule: history-based (NCOG) or, for simplex members, population-based (CRT looks at the vertices and their stored energies)
+    term_kind = rng.choice(['ncog', 'ncog', 'crt']) if nested == 'nm' else 'ncog'
+    ctol = rng.choice([1e-4, 1e-2])
+    def mkterm():
+        from mystic.termination import CandidateRelativeTolerance as CRT
+        return CRT(ctol, ctol) if term_kind == 'crt' else NCOG(1e-4, 2)
     dist = rng.choice([None, None, 'normal', 'uniform'])      # members' starting points randomised by a user-supplied Distribution (built after seeding)
-    obs.desc.update(monitors=mons, restart=restart, nested_instance=instance, box=box, dist=dist)
+    obs.desc.update(monitors=mons, restart=restart, nested_instance=instance, box=box, dist=dist, termination=term_kind)
     if dist: obs.event('sampled_from_a_distribution')
     def cost(x):
         return raw([float(v) for v in x])
@@ -320,7 +326,7 @@ def run_ensemble_maps(rng, obs):
             n_ = cls_(dim)
             n_.SetStrictRanges(list(box['lo']), list(box['hi']), **({} if instance == 'plain' else {'tight': True}))
             n_.SetEvaluationLimits(maxiter, 4000)
-            n_.SetTermination(NCOG(1e-4, 2))
+            n_.SetTermination(mkterm())
             n_.SetObjective(cost)
             s.SetNestedSolver(n_)
         else:
@@ -338,7 +344,7 @@ def run_ensemble_maps(rng, obs):
         if mapname != 'default': s.SetMapper(getattr(zoo, mapname))
         if mons in ('both', 'stepmon'): s.SetGenerationMonitor(Monitor())
         if mons in ('both', 'evalmon'): s.SetEvaluationMonitor(Monitor())
-        s.SetTermination(NCOG(1e-4, 2))
+        s.SetTermination(mkterm())
         if step: s.Solve(cost, disp=0, step=True)
         else: s.Solve(cost, disp=0)
         first = None
